@@ -74,6 +74,19 @@ func graphEdges(nodes []GNode) int {
 // graphProgram renders a graph: all sources in one set variable, an injector
 // needing only node `root`. unreferenced: no injector uses the set (check only).
 func graphProgram(id string, nodes []GNode, root int, unreferenced bool) *Program {
+	return graphProgramLayout(id, nodes, root, unreferenced, 0)
+}
+
+// graphLayouts: how the sources of a graph are distributed over provider sets.
+//
+//	0 one set variable holds every source
+//	1 every source in a set variable of its own; SetG = NewSet(Sub0, Sub1, ...) adds nothing itself
+//	2 two set variables by node parity, combined by SetG together with one unrelated local provider
+//	3 a chain Sub0 ⊃ Sub1 ⊃ ..., every level adding the sources of one residue class mod 3
+//	4 like 1, but the injector lists the sub-sets directly in wire.Build (no combining variable)
+const graphLayouts = 5
+
+func graphProgramLayout(id string, nodes []GNode, root int, unreferenced bool, layout int) *Program {
 	nodes = normalizeGraph(nodes)
 	b := NewPB(id, "app")
 	n := len(nodes)
@@ -123,22 +136,139 @@ func graphProgram(id string, nodes []GNode, root int, unreferenced bool) *Progra
 			members = append(members, ItemRef(b.Bind(tys[i], tys[v]).ID))
 		}
 	}
-	s := b.Set(0, "SetG", members...)
+	// a binding must sit in the set that provides its concrete type: it follows its target
+	part := func(i int, k int) int {
+		if nodes[i].Kind == "bind" {
+			return nodes[i].Deps[0] % k
+		}
+		return i % k
+	}
+	var s *Set
+	var buildRefs []Ref
+	switch layout {
+	case 1, 4:
+		var subs []Ref
+		for i := 0; i < n; i++ {
+			var ms []Ref
+			for j := 0; j < n; j++ {
+				if part(j, n) == i {
+					ms = append(ms, members[j])
+				}
+			}
+			if len(ms) > 0 {
+				subs = append(subs, SetRef(b.Set(0, fmt.Sprintf("Sub%d", i), ms...).ID))
+			}
+		}
+		s = b.Set(0, "SetG", subs...)
+		buildRefs = subs
+	case 2:
+		var subs []Ref
+		for k := 0; k < 2; k++ {
+			var ms []Ref
+			for j := 0; j < n; j++ {
+				if part(j, 2) == k {
+					ms = append(ms, members[j])
+				}
+			}
+			if len(ms) > 0 {
+				subs = append(subs, SetRef(b.Set(0, fmt.Sprintf("Sub%d", k), ms...).ID))
+			}
+		}
+		s = b.Set(0, "SetG", subs...)
+	case 3:
+		var inner *Set
+		for k := 2; k >= 0; k-- {
+			var ms []Ref
+			for j := 0; j < n; j++ {
+				if part(j, 3) == k {
+					ms = append(ms, members[j])
+				}
+			}
+			if inner != nil {
+				ms = append(ms, SetRef(inner.ID))
+			}
+			if len(ms) == 0 {
+				continue
+			}
+			name := fmt.Sprintf("Sub%d", k)
+			if k == 0 {
+				name = "SetG"
+			}
+			inner = b.Set(0, name, ms...)
+		}
+		s = inner
+	default:
+		s = b.Set(0, "SetG", members...)
+	}
+	if s == nil {
+		s = b.Set(0, "SetG", members...)
+	}
 	if unreferenced {
 		other := b.Carrier(0, "Other")
 		f := b.Func(0, "NewOther", other, false, false)
 		f.Stub = true
 		b.Inj("InitOther", other, false, false, nil, ItemRef(f.ID))
+	} else if layout == 4 && len(buildRefs) > 0 {
+		// only the sub-sets the result needs (the others would rightly be reported as unused)
+		reach := graphReach(nodes, root)
+		var need []Ref
+		for i := 0; i < n; i++ {
+			if reach[i] && nodes[i].Kind != "bind" {
+				for _, sr := range buildRefs {
+					if b.P.Sets[sr.Set].Name == fmt.Sprintf("Sub%d", i) {
+						need = append(need, sr)
+					}
+				}
+			}
+		}
+		b.Inj("Init", tys[root], false, false, nil, need...)
 	} else {
 		b.Inj("Init", tys[root], false, false, nil, SetRef(s.ID))
 	}
 	return b.P
 }
 
+// graphReach: nodes reachable from root.
+func graphReach(nodes []GNode, root int) map[int]bool {
+	reach := map[int]bool{}
+	var visit func(u int)
+	visit = func(u int) {
+		if reach[u] {
+			return
+		}
+		reach[u] = true
+		for _, v := range nodes[u].Deps {
+			visit(v)
+		}
+	}
+	visit(root)
+	return reach
+}
+
+// graphCyclicWithin: is there a cycle among the nodes of keep.
+func graphCyclicWithin(nodes []GNode, keep map[int]bool) bool {
+	sub := make([]GNode, len(nodes))
+	for i, nd := range nodes {
+		sub[i].Kind = nd.Kind
+		if !keep[i] {
+			continue
+		}
+		for _, d := range nd.Deps {
+			if keep[d] {
+				sub[i].Deps = append(sub[i].Deps, d)
+			}
+		}
+	}
+	return graphCyclic(sub)
+}
+
 type graphCase struct {
 	P      *Program
 	Nodes  []GNode
 	Cyclic bool
+	// GenCyclic: is there a cycle in what the injector's wire.Build lists (differs from Cyclic
+	// only when the injector lists a part of the sources)
+	GenCyclic bool
 	Family string
 	Unref  bool
 }
@@ -220,21 +350,45 @@ func CheckC07(e *Env) int {
 	t0 := time.Now()
 	rep := NewReport(e, "C07", "exploration", "exhaustive: every labelled digraph with self-loops on n<=3 nodes (quick) / n<=4 (thorough), all-function edges; random graphs n=4..8 with mixed edge kinds (function parameter, struct-provider field, FieldsOf parent, binding); structured lassos, disjoint components, diamond lattices (2^d paths), long chains, wide fan-out; each graph as a set used by an injector needing only one node and as an unreferenced set under wire check; oracle: cyclic <=> rejected with a 'cycle' diagnostic (DFS in the monitor); termination and path-independence are decided on hook step counts (cap and linear budget), never on time; distinct = (family, nodes, edges, kinds, cyclic)")
 	var gcs []*graphCase
+	layout := 0
 	add := func(family string, nodes []GNode, root int, unref bool) {
 		nodes = normalizeGraph(nodes)
 		id := fmt.Sprintf("g%05d", len(gcs))
-		p := graphProgram(id, nodes, root, unref)
+		p := graphProgramLayout(id, nodes, root, unref, layout)
+		if layout != 0 {
+			family = fmt.Sprintf("%s/layout%d", family, layout)
+		}
 		p.Note = family
-		gcs = append(gcs, &graphCase{P: p, Nodes: nodes, Cyclic: graphCyclic(nodes), Family: family, Unref: unref})
+		gc := &graphCase{P: p, Nodes: nodes, Cyclic: graphCyclic(nodes), Family: family, Unref: unref}
+		gc.GenCyclic = gc.Cyclic
+		if layout == 4 && !unref {
+			gc.GenCyclic = graphCyclicWithin(nodes, graphReach(nodes, root))
+		}
+		gcs = append(gcs, gc)
 	}
 	maxN := 3
 	if e.Tier == "thorough" {
 		maxN = 4
 	}
 	for n := 1; n <= maxN; n++ {
-		for _, g := range allDigraphs(n) {
+		for gi, g := range allDigraphs(n) {
+			layout = 0
 			add(fmt.Sprintf("exhaustive-n%d", n), g, 0, false)
+			if n >= 2 {
+				// the same graph with its sources spread over several set variables
+				layout = 1 + gi%(graphLayouts-1)
+				add(fmt.Sprintf("exhaustive-n%d", n), g, 0, gi%7 == 3)
+				if e.Tier == "thorough" || n == 2 {
+					for l := 1; l < graphLayouts; l++ {
+						if l != 1+gi%(graphLayouts-1) {
+							layout = l
+							add(fmt.Sprintf("exhaustive-n%d", n), g, 0, false)
+						}
+					}
+				}
+			}
 		}
+		layout = 0
 	}
 	rep.Exhaustive = false
 	// random mixed-kind graphs
@@ -256,7 +410,9 @@ func CheckC07(e *Env) int {
 				g[u].Deps = g[u].Deps[:1]
 			}
 		}
+		layout = i % graphLayouts
 		add("random-mixed", g, r.Intn(n), i%5 == 4)
+		layout = 0
 	}
 	// lassos: tail 0..5, cycle 1..5, root at every position, closing edge of each kind
 	for tail := 0; tail <= 5; tail++ {
@@ -285,7 +441,9 @@ func CheckC07(e *Env) int {
 						continue
 					}
 					seen[root] = true
+					layout = (tail + cyc + root) % graphLayouts
 					add("lasso-"+closeKind, g, root, false)
+					layout = 0
 				}
 			}
 		}
@@ -300,8 +458,12 @@ func CheckC07(e *Env) int {
 				g[base+2].Deps = []int{base}
 			}
 		}
-		add("components", g, 0, false)
-		add("components", g, 0, true)
+		for l := 0; l < graphLayouts; l++ {
+			layout = l
+			add("components", g, 0, false)
+			add("components", g, 0, true)
+		}
+		layout = 0
 	}
 	gcsStructStart := len(gcs)
 	_ = gcsStructStart
@@ -368,7 +530,11 @@ func judgeGraph(rep *Report, gc *graphCase, pr *ProgResult) {
 	chkText := strings.Join(texts, "\n")
 	if gc.Cyclic {
 		rep.Count("cyclic_graphs", 1)
-		if !gc.Unref {
+	} else {
+		rep.Count("acyclic_graphs", 1)
+	}
+	if !gc.Unref {
+		if gc.GenCyclic {
 			if pr.Outcome.Wrote || pr.GenFile != "" {
 				violate("cyclic provider set accepted by gen", genText)
 				return
@@ -377,18 +543,17 @@ func judgeGraph(rep *Report, gc *graphCase, pr *ProgResult) {
 				violate("cyclic provider set rejected by gen without a cycle diagnostic", genText+"\n"+pr.GenStderr)
 				return
 			}
-		}
-		if pr.CheckRan && !strings.Contains(chkText, "cycle") {
-			violate("cyclic provider set not reported as a cycle by check", chkText)
-			return
-		}
-	} else {
-		rep.Count("acyclic_graphs", 1)
-		if !gc.Unref && (!pr.Outcome.Wrote || len(pr.Outcome.Diags) > 0) {
+		} else if !pr.Outcome.Wrote || len(pr.Outcome.Diags) > 0 {
 			violate("acyclic provider set rejected by gen", genText+"\n"+pr.GenStderr)
 			return
 		}
-		if pr.CheckRan && len(pr.CheckDiags) > 0 {
+	}
+	if pr.CheckRan {
+		if gc.Cyclic && !strings.Contains(chkText, "cycle") {
+			violate("cyclic provider set not reported as a cycle by check", chkText)
+			return
+		}
+		if !gc.Cyclic && len(pr.CheckDiags) > 0 {
 			violate("acyclic provider set rejected by check", chkText)
 			return
 		}
